@@ -5,13 +5,16 @@ Property theorems only (lemmas: AgVerif/Proof/Arsc.lean).
 Model: AgVerif.Arsc (ARSCParser.__init__ and the classes it builds, `_analyse`, the listings) and
 AgVerif.Resolve.getResConfigs; constants from AgVerif.Gen.ArscConsts (regenerated from the
 repository on every run).  Spec: AgVerif.Spec.Arsc (the Android encodings, as encoders).
-Proved: the three entry-offset-array decoders, the simple and compact entry decoders and the map
-items of complex entries invert the format's encoders for every array / entry (L1), the resource id assembly, that both chunk loops advance,
-the selection rule of get_res_configs, the dictionary facts behind the listings, and the
-composition offsets → entries under an explicit hypothesis (`table_roundtrip_partial`).
+Proved: the three entry-offset-array decoders, the simple, compact and complex entry decoders invert
+the format's encoders for every array / entry (L1), the random-access readers of the file-level model
+agree with those L1 decoders for every file and offset (`reader_eq_decoder_*`), string pools
+(UTF-16 and UTF-8) read back to their strings (`pool_roundtrip`), the resource id assembly, that both
+chunk loops advance, the selection rule of get_res_configs, the dictionary facts behind the listings,
+and the composition offsets → entries under an explicit hypothesis (`table_roundtrip_partial`).
 NOT proved: `table_roundtrip_full` (file level); covered by correspondence and oracle only.
+Lemmas: AgVerif/Proof/Arsc*.lean; file-level format: AgVerif/Spec/ArscFile.lean.
 -/
-import AgVerif.Proof.Arsc
+import AgVerif.Proof.ArscStr
 namespace AgVerif.C28
 open AgVerif.Arsc AgVerif.Gen.ArscConsts AgVerif.Spec.Arsc
 
@@ -156,6 +159,57 @@ theorem table_roundtrip_partial (b : Buf) (base endOfChunk : Nat) (ids : List (N
     simp only at h1
     simp [readAtes, h1, h2]
 
+
+/-! ### deepening: readers = decoders, whole complex entries, string pools -/
+
+/-- (1) the random-access 16-bit read is the list-level read on the suffix of the file -/
+theorem reader_eq_decoder_u16 (b : Buf) (p : Nat) : rd16 b p = (le16 (b.toList.drop p)).map (·.1) :=
+  rd16_eq b p
+
+/-- (1) the same for 32-bit reads -/
+theorem reader_eq_decoder_u32 (b : Buf) (p : Nat) : rd32 b p = (le32 (b.toList.drop p)).map (·.1) :=
+  rd32_eq b p
+
+/-- (1) `ARSCResStringPoolRef` read at an offset = the L1 `Res_value` decoder on the suffix -/
+theorem reader_eq_decoder_value (b : Buf) (p : Nat) :
+    readResValue b p = (resValueL (b.toList.drop p)).map (·.1) :=
+  readResValue_eq b p
+
+/-- (1) the item loop of `ARSCComplex` = the L1 map decoder, whenever the chunk-end cut-off does not
+    bite (the last item starts at least four bytes before the end of the chunk) -/
+theorem reader_eq_decoder_items (b : Buf) (eoc n p : Nat) (hfit : n = 0 ∨ p + 12 * n ≤ eoc + 8) :
+    readMapItems b eoc n p = (mapItemsL n (b.toList.drop p)).map (·.1) :=
+  readMapItems_eq b eoc n p hfit
+
+/-- (1) `ARSCResTableEntry(buff, offset, end_of_chunk)` = the L1 entry decoder on the suffix of the
+    file at that offset, for every file, offset and entry kind (simple, compact, complex; also when
+    either side fails), provided a complex entry lies inside its chunk (`ComplexFits`) -/
+theorem reader_eq_decoder_entry (b : Buf) (p eoc : Nat) (hfit : ComplexFits b p eoc) :
+    readEntry b p eoc = (decodeEntryL (b.toList.drop p)).map (·.1) :=
+  readEntry_eq b p eoc hfit
+
+/-- (2) a whole complex entry (ResTable_map_entry header + every map) decodes to its parts -/
+theorem entry_roundtrip_complex (flags key parent : Nat) (items : List (Nat × (Nat × Nat))) (rest : List Nat)
+    (hf : flags < 65536) (hc : flags &&& flagComplex ≠ 0)
+    (hkey : key < 4294967296) (hp : parent < 4294967296) (hn : items.length < 4294967296)
+    (hi : ∀ it ∈ items, it.1 < 4294967296 ∧ it.2.1 < 256 ∧ it.2.2 < 4294967296) :
+    decodeEntryL (encComplex flags key parent items ++ rest)
+      = some (⟨flags, key, .complex parent items⟩, rest) :=
+  decodeEntryL_complex flags key parent items rest hf hc hkey hp hn hi
+
+/-- (3) string pools: wherever an encoded pool (UTF-16 or UTF-8; strings of BMP code points without
+    surrogates, shorter than 128 units and 128 UTF-8 bytes — `wfStr`) sits in a file, `ARSCHeader` +
+    `StringBlock` read it, the chunk ends where the encoding ends, and `getString(i)` is the UTF-8
+    text of string `i` for every `i` -/
+theorem pool_roundtrip (bs r : List Nat) (p : Nat) (u8 : Bool) (strs : List (List Nat))
+    (h : bs.drop p = encPool u8 strs ++ r) (hlen : (encPool u8 strs).length < 4294967296)
+    (hwf : strs.all wfStr = true) :
+    ∃ hd pl, readHdr bs.toArray p (some resStringPoolType) = some hd ∧ readPool bs.toArray hd = some pl ∧
+      hd.end_ = p + (encPool u8 strs).length ∧
+      ∀ i (hi : i < strs.length), pl.getString i = some (utf8s strs[i]) :=
+  ⟨_, _, (readPool_at u8 strs h hlen).1, (readPool_at u8 strs h hlen).2.2, rfl,
+    fun i hi => pool_getString u8 strs hwf i hi⟩
+
 /-- The file-level statement, NOT proved: for an encoder `encode` of abstract tables into
     resources.arsc files (the Android format; harness/arscwriter.py is one) and the abstraction
     `view` of a parse, parsing an encoded well-formed table gives the table back. -/
@@ -173,5 +227,16 @@ example : decodeEntryL (encComplex 1 7 0 [(257, (16, 1)), (0, (1, 300))])
     = some (⟨1, 7, .complex 0 [(257, (16, 1)), (0, (1, 300))]⟩, []) := by decide
 example : decodeEntryL (encCompact 4104 3 42) = some (⟨4104, 3, .compact 16 42⟩, []) := by decide
 example : resId 127 2 5 = 0x7F020005 := by decide
+example : ComplexFits (encComplex 1 7 0 [(257, (16, 1)), (0, (1, 300))]).toArray 0 40 := by
+  intro flags count h1 _ h2
+  have e1 : rd32 (encComplex 1 7 0 [(257, (16, 1)), (0, (1, 300))]).toArray (0 + 12) = some 2 := by decide
+  rw [e1] at h2; injection h2 with h2; subst h2; omega
+example : readEntry (encComplex 1 7 0 [(257, (16, 1)), (0, (1, 300))]).toArray 0 40
+    = some ⟨1, 7, .complex 0 [(257, (16, 1)), (0, (1, 300))]⟩ := by decide
+example : wfStr [104, 0x4e2d, 233] = true := by decide
+example : (poolOf true [[104, 105], [0x4e2d, 233]]).getString 1 = some [228, 184, 173, 195, 169] := by decide
+example : (poolOf false [[104, 105], [0x4e2d, 233]]).getString 1 = some (utf8s [0x4e2d, 233]) :=
+  pool_getString false [[104, 105], [0x4e2d, 233]] (by decide) 1 (by decide)
+example : utf8s [0x4e2d, 233] = [228, 184, 173, 195, 169] := by decide
 
 end AgVerif.C28
